@@ -82,13 +82,25 @@ def isKept : Decl → Bool
   | _ => false
 
 mutual
-  /-- compile the declarations of a map in source order; `pre` = key path of the enclosing object ([] at a board root) -/
-  def evalDecls (pre : OPath) (s : St) : List Decl → St
-    | [] => s
-    | d :: ds => evalDecls pre (evalDecl pre s d) ds
+  /-- the objects created by the declarations INSIDE an object whose key path is `pre` (board keywords are not
+      allowed there; the evaluator ignores them) -/
+  def objsDecls (pre : OPath) (objs : List OPath) : List Decl → List OPath
+    | [] => objs
+    | d :: ds => objsDecls pre (objsDecl pre objs d) ds
+  def objsDecl (pre : OPath) (objs : List OPath) : Decl → List OPath
+    | .obj path body => objsDecls (pre ++ path) (ensureFrom objs pre path) body
+    | .boards _ _ => objs
+    | .board _ _ => objs
+end
 
-  def evalDecl (pre : OPath) (s : St) : Decl → St
-    | .obj path body => evalDecls (pre ++ path) { s with objs := ensureFrom s.objs pre path } body
+mutual
+  /-- compile the declarations of a board root in source order -/
+  def evalDecls (s : St) : List Decl → St
+    | [] => s
+    | d :: ds => evalDecls (evalDecl s d) ds
+
+  def evalDecl (s : St) : Decl → St
+    | .obj path body => { s with objs := objsDecls path (ensureFrom s.objs [] path) body }
     | .boards .layers bs => { s with layers := s.layers ++ evalLayers bs }
     | .boards .scenarios bs => { s with scenarios := s.scenarios ++ evalScenarios s.objs bs }
     | .boards .steps bs => { s with steps := s.steps ++ evalSteps s.objs bs }
@@ -96,24 +108,24 @@ mutual
 
   def evalLayers : List Decl → List (Name × BoardV)
     | [] => []
-    | .board n body :: rest => (n, (evalDecls [] (St.init []) body).toBoard) :: evalLayers rest
+    | .board n body :: rest => (n, (evalDecls (St.init []) body).toBoard) :: evalLayers rest
     | _ :: rest => evalLayers rest
 
   def evalScenarios (base : List OPath) : List Decl → List (Name × BoardV)
     | [] => []
-    | .board n body :: rest => (n, (evalDecls [] (St.init base) body).toBoard) :: evalScenarios base rest
+    | .board n body :: rest => (n, (evalDecls (St.init base) body).toBoard) :: evalScenarios base rest
     | _ :: rest => evalScenarios base rest
 
   def evalSteps (base : List OPath) : List Decl → List (Name × BoardV)
     | [] => []
     | .board n body :: rest =>
-        let b := (evalDecls [] (St.init base) body).toBoard
+        let b := (evalDecls (St.init base) body).toBoard
         (n, b) :: evalSteps b.objs rest
     | _ :: rest => evalSteps base rest
 end
 
 /-- a board: `base` objects inherited, then its own declarations -/
-def evalBoard (base : List OPath) (body : List Decl) : BoardV := (evalDecls [] (St.init base) body).toBoard
+def evalBoard (base : List OPath) (body : List Decl) : BoardV := (evalDecls (St.init base) body).toBoard
 
 def evalRoot (p : List Decl) : BoardV := evalBoard [] p
 
@@ -136,6 +148,27 @@ mutual
 end
 
 def blDecls (l : List Decl) : List Decl := blNon l ++ blKept l
+
+/-- a non-empty `scenarios` / `steps` block: its boards copy the parent board at the point of declaration -/
+def inherits : Decl → Bool
+  | .boards .scenarios (_ :: _) => true
+  | .boards .steps (_ :: _) => true
+  | _ => false
+
+mutual
+  /-- the region of `boardsLast_sound_partial`: in every board root, no non-board declaration follows a non-empty
+      scenarios / steps block (layers blocks may stand anywhere) -/
+  def okD : Decl → Bool
+    | .obj _ _ => true
+    | .boards _ bs => okAll bs
+    | .board _ body => okL body
+  def okAll : List Decl → Bool
+    | [] => true
+    | d :: ds => okD d && okAll ds
+  def okL : List Decl → Bool
+    | [] => true
+    | d :: ds => okD d && (!inherits d || ds.all isBoards) && okL ds
+end
 
 /-! ## reading a fragment AST as a program (partial: `none` outside the evaluator's sub-fragment) -/
 
@@ -202,6 +235,7 @@ mutual
     | _ => none
 
   partial def boardOf : N → Option Decl
+    | .mnode _ _ (.key _ none (.map _ [])) => none   -- `name: {}` is printed as `name`: outside the sub-fragment
     | .mnode _ _ (.key h none (.map _ nodes)) => do
         let p ← plainHead h
         match p with
@@ -246,6 +280,20 @@ def ofAst : N → Option (List Decl)
       let spellings := ns.eraseDups
       if (spellings.map lower).eraseDups.length == spellings.length && boardNamesDistinct ds then pure ds else none
   | _ => none
+
+/-! ## labels (for the value-case counterexample) -/
+
+/-- `name: text` declarations of a file map: the label text each one assigns -/
+def labelOfNode : N → Option (Text × Text)
+  | .mnode _ _ (.key h none (.scalar (.str s))) =>
+      match plainHead h with
+      | some [k] => some (k.val, s.val)
+      | _ => none
+  | _ => none
+
+def labelsOf : N → List (Text × Text)
+  | .map _ nodes => nodes.filterMap labelOfNode
+  | _ => []
 
 /-! ## canonical rendering (compared with the projection of the real compile) -/
 
